@@ -259,8 +259,11 @@ def _shuffle(ctx, f):
     ok_p = len(names) == 1 and all(lin(k) == diff for _n, k in reads)
     PERMS = next(iter(names)) if len(names) == 1 else None
     if ok_p and direct:
-        filed = [no_uids(e.value) for e in evs
-                 if root_name(e.recv) == PERMS and e.kind == "store"]
+        filed = []
+        for e in evs:
+            if root_name(e.recv) == PERMS and e.kind == "store":
+                filed.append(no_uids(e.value))
+                filed.extend(no_uids(x) for x in var_leaves(du, T, e.value))
         ok_p = all(no_uids(d) in filed for d in direct)
     ctx.check(ok_p, "C18a-permutation-length", f,
               "the permutation used has length end - start",
@@ -306,30 +309,43 @@ def _shuffle(ctx, f):
         ctx.check(lin(e.key) == diff, "C18a-permutation-length", f,
                   "permutations are filed under their own length",
                   f"stored under {show(e.key, 80)}", node=e.node)
-        own = [(simp(T.of(t)), o) for t, o in
-               cfg.necessary_conditions(e.stmt) if inside(t, il)]
-        flags = [o for t, o in own if t == ("param", p_rev)]
-        # the value, per direction: directly, or through a helper's paths
-        cases = [([], e.value, du, T)]
-        if e.value[0] == "call" and e.value[1] in prog.funcs:
-            callee = prog.funcs[e.value[1]]
-            b = bound_args(prog, e.value) or {}
-            cases = []
-            for c in return_cases(prog, callee):
-                cases.append(([(subst_params(t, b), o) for t, o in c.conds],
-                              c.term, c.du, c.T, b))
-        for case in cases:
-            cconds, term, cdu, cT = case[:4]
-            b = case[4] if len(case) > 4 else {}
-            for flag in (True, False):
-                if flags and flags[0] != flag:
-                    continue
-                if any(t == ("param", p_rev) and o != flag
-                       for t, o in cconds):
-                    continue
-                for lf in var_leaves(cdu, cT, term):
-                    by_flag[flag].append((e, subst_params(lf, b), cdu, cT,
-                                          b))
+    # the values filed under perms[L], one reading per path through the
+    # peptide loop (so that the value is seen together with the value of
+    # ``reverse`` that selects it), directly or through a helper's paths
+    for v in path_variants(f.node, within=il):
+        vdu = DefUse(prog, f, fnode=v.fnode)
+        vT = Terms(vdu, phi_vars=True)
+        vflags = set()
+        for t_, o_ in v.conds:
+            tt_ = vT.of(t_)
+            while tt_[0] == "un" and tt_[1] == "not":
+                tt_, o_ = tt_[2], not o_
+            if tt_ == ("param", p_rev):
+                vflags.add(o_)
+        if len(vflags) > 1:
+            continue
+        vev = [e for e in container_events(v.fnode, vT, CFG(v.fnode))
+               if root_name(e.recv) == PERMS and e.kind == "store"]
+        for e in vev:
+            cases = [([], e.value, vdu, vT, {})]
+            if e.value[0] == "call" and e.value[1] in prog.funcs:
+                callee = prog.funcs[e.value[1]]
+                b = bound_args(prog, e.value) or {}
+                cases = []
+                for c in return_cases(prog, callee):
+                    cases.append(([(subst_params(t, b), o)
+                                   for t, o in c.conds],
+                                  c.term, c.du, c.T, b))
+            for cconds, term, cdu, cT, b in cases:
+                for flag in (True, False):
+                    if vflags and flag not in vflags:
+                        continue
+                    if any(t == ("param", p_rev) and o != flag
+                           for t, o in cconds):
+                        continue
+                    for lf in var_leaves(cdu, cT, term):
+                        by_flag[flag].append((e, subst_params(lf, b), cdu,
+                                              cT, b))
 
     def kind_of(lf, cdu, cT, b):
         def is_range(x):
